@@ -20,7 +20,7 @@
 (* every touched object is well formed and owns a block of exactly its     *)
 (* allocation, and no temporary block survives the call.                   *)
 (***************************************************************************)
-EXTENDS Naturals, Integers, Sequences, FiniteSets, TLC, BigZ, Dbl, ApiSig, SemZ, SemQ, SemF, SemN, SemIO, SemR
+EXTENDS Naturals, Integers, Sequences, FiniteSets, TLC, BigZ, Dbl, ApiSig, SemZ, SemQ, SemF, SemN, SemIO, SemR, HookPre
 
 CONSTANTS NZ, NQ, NF, NR            \* pool sizes
 VARIABLES zs, qs, fs, rs,           \* pools
@@ -228,7 +228,17 @@ GlobalWrite(ev) == /\ ev.e = "gw"
                       \/ HasSub(ev.sym, "__gmpn_cpuvec", 1)                                                         \* fat binary: lazy dispatch initialisation
                    /\ UNCHANGED mvars
 
-Step(ev) == \/ GlobalWrite(ev) \/ Reset(ev) \/ CallBegin(ev) \/ Alloc(ev) \/ Realloc(ev) \/ Free(ev)
+(* a decision reported by a VERIF_EV hook of the library (guard MPIR_VERIF): the choice itself is free (tuning), its safety
+   predicate is not -- the algorithm entered must be inside the domain its own ASSERTs state, FFT parameters must not let
+   coefficients wrap.  Tags without a predicate are coverage labels. *)
+HookOK(ev) ==
+   IF Len(ev.tag) > 4 /\ SubSeq(ev.tag, 1, 4) = "mul." THEN TPre(SubSeq(ev.tag, 5, Len(ev.tag)), ev.a, ev.b)
+   ELSE IF ev.tag = "fft.trunc" THEN FFTSafe(ev.a, ev.b, ev.c, ev.d, "trunc")
+   ELSE IF ev.tag = "fft.mfa" THEN FFTSafe(ev.a, ev.b, ev.c, ev.d, "mfa")
+   ELSE TRUE
+Hook(ev) == ev.e = "hk" /\ HookOK(ev) /\ UNCHANGED mvars
+
+Step(ev) == \/ Hook(ev) \/ GlobalWrite(ev) \/ Reset(ev) \/ CallBegin(ev) \/ Alloc(ev) \/ Realloc(ev) \/ Free(ev)
             \/ CallEnd(ev) \/ Fn(ev) \/ HFree(ev) \/ Quiesce(ev)
 
 (* ---- invariants of the machine (checked in every state of every validated trace) ---- *)
